@@ -104,7 +104,7 @@ func (i Index) Copy() Index {
 // GetDesc returns a descriptor for a tag or digest, including child descriptors.
 func (i Index) GetDesc(arg string) (Descriptor, error) {
 	var dZero Descriptor
-	if len(i.Manifests) == 0 {
+	if len(i.Manifests) == 0 && len(i.childManifests) == 0 {
 		return dZero, ErrNotFound
 	}
 	if RefTagRE.MatchString(arg) {
